@@ -785,7 +785,7 @@ func mapItem(entries [][2][]byte) []byte {
 }
 
 // unprotTampers: the unprotected bucket of a message with one of its entries (label `label`, a one-octet unsigned key)
-// dropped, emptied (h''), moved to another label, or shadowed by a second entry under the same label placed in front —
+// dropped, emptied (h”), moved to another label, or shadowed by a second entry under the same label placed in front —
 // nothing else touched.  What the entry carried (an IV, a Partial IV, a kid) is then missing, or present twice.
 func unprotTampers(r *rand.Rand, data []byte, label byte) [][]byte {
 	_, spans := topMembers(data)
@@ -824,6 +824,17 @@ func unprotTampers(r *rand.Rand, data []byte, label byte) [][]byte {
 		}
 		if !hasKid {
 			with(moved)
+		}
+	}
+	// the value without its first octet(s): a shorter IV is another IV, never padded back (it matters when the octets cut
+	// off were zero)
+	if vc, ok := bstrContent(entries[idx][1]); ok && len(vc) > 1 {
+		for _, cut := range []int{1, len(vc) / 2} {
+			if cut > 0 && cut < len(vc) {
+				short := clone()
+				short[idx] = [2][]byte{entries[idx][0], bstrItem(vc[cut:])}
+				with(short)
+			}
 		}
 	}
 	// a second entry under the same label in front of the genuine one (duplicate label: the map is not well-formed)
